@@ -162,7 +162,9 @@ def gen_c06(rng, index: int, systematic: bool) -> Dict[str, Any]:
         for _ in range(rng.randrange(1, 10)):
             r = rng.random()
             tag = rng.randrange(1, 1 << 24)
-            if r < 0.25:
+            if r < 0.06:
+                items.append(rng.choice([b"", b"\xfe", b"\xfe\xf0", b"\xf0", b"\xfe\xf0\x00"]))
+            elif r < 0.25:
                 items.append(valid_dgram(rng, tag))
             elif r < 0.5:
                 items.append(junk_dgram(rng, tag, "unknown_model"))
@@ -208,6 +210,11 @@ def gen_c07(rng) -> Dict[str, Any]:
         st = {"kind": "dgram", "port": rng.choice(ports), "payload": b.hex(), "tag": t}
         net_faults(rng, st, p_drop=0.08, p_dup=0.15, p_delay=0.6 if burst else 0.3)
         steps.append(st)
+        if len(ports) > 1 and rng.random() < 0.08:
+            other = rng.choice([p for p in ports if p != st["port"]])
+            m = dict(st, port=other, tag="%sm" % t)
+            m.pop("drop", None)
+            steps.append(m)           # devices announce on the legacy and the new port at once
         if rng.random() < 0.07:
             steps.append({"kind": "sockerr", "port": rng.choice(ports), "delay": round(rng.uniform(0, 0.3), 6)})
         if not burst and rng.random() < 0.5:
@@ -283,8 +290,10 @@ def gen_c17(rng, index: Optional[int] = None, maxlen: int = 4) -> Dict[str, Any]
             if a in ("start", "start!"):
                 steps.append({"kind": rng.choice(["start", "start", "aenter"])})
             elif a == "stop":
-                if rng.random() < 0.4:
-                    send(ports, late=True)          # a datagram in flight / queued when stop is called
+                if rng.random() < 0.5:
+                    send(ports, late=True)          # a datagram in flight / queued / just read when stop is called
+                    for _ in range(rng.choice([0, 0, 1, 2, 3, 4])):
+                        steps.append({"kind": "sleep", "s": 0.0})
                 steps.append({"kind": rng.choice(["stop", "stop", "aexit"]), "exc": rng.random() < 0.3})
             elif a == "send":
                 send(ports)
@@ -307,6 +316,8 @@ def gen_c17(rng, index: Optional[int] = None, maxlen: int = 4) -> Dict[str, Any]
         elif r < 0.5:
             if rng.random() < 0.5:
                 send(ports, late=True)
+                for _ in range(rng.choice([0, 0, 1, 2, 3, 4])):
+                    steps.append({"kind": "sleep", "s": 0.0})
             steps.append({"kind": rng.choice(["stop", "aexit"]), "exc": rng.random() < 0.3})
             running = False
         elif r < 0.75:
